@@ -136,6 +136,9 @@ func (gme *GCPMultiEndpoint) NewStream(ctx context.Context, desc *grpc.StreamDes
 }
 
 func (gme *GCPMultiEndpoint) pickConn(ctx context.Context) *grpc.ClientConn {
+	// The maps are modified by UpdateMultiEndpoints.
+	gme.mu.RLock()
+	defer gme.mu.RUnlock()
 	name, ok := FromMEContext(ctx)
 	me, ook := gme.mes[name]
 	if !ok || !ook {
@@ -145,6 +148,8 @@ func (gme *GCPMultiEndpoint) pickConn(ctx context.Context) *grpc.ClientConn {
 }
 
 func (gme *GCPMultiEndpoint) Close() error {
+	gme.mu.Lock()
+	defer gme.mu.Unlock()
 	var errs multiError
 	for e, mc := range gme.pools {
 		mc.stopMonitoring()
